@@ -1,4 +1,5 @@
 import ScriggoV.Lemmas.TypeCheckStmt
+import ScriggoV.Lemmas.Terminating
 /-! # C03 — what is proved about the Go typing rules of the fragment
 
 The *model* is `Model/TypeCheck.lean` (the Go specification's typing of expressions and
@@ -307,5 +308,70 @@ example : checkProgram [.shortDecl2 0 1 (.intLit 1) (.intLit 2), .shortDecl2 0 1
 /-- a constant is a constant exactly when all its operands are -/
 theorem binary_constant_iff_operands_constant (op : BinOp) (x y z : Operand) (h : checkBinary op x y = .ok z) :
     z.val.isSome = (x.val.isSome && y.val.isSome) := checkBinary_const h
+
+/-! ## 3. Terminating statements ("missing return")
+
+`Model/Terminating.lean` transcribes the specification's definition of a terminating statement
+for a skeleton of return / goto / panic / block / if / for / expression switch / type switch /
+select / labeled statements with break, continue and fallthrough. -/
+section Terminating
+open ScriggoV.Terminating
+
+/-- **a terminating statement never completes normally**: whichever way its conditions go,
+control does not fall off its end (reference semantics `outs`: return, panic, goto, a break or
+continue that leaves it — never `normal`). This is what makes "the function body ends in a
+terminating statement" a sound reason not to demand a final `return`. -/
+theorem terminating_never_completes_normally (s : TStmt) (label : Option Nat)
+    (h : terminating s label = true) : Out.normal ∉ outs s label :=
+  terminating_no_normal s label h
+
+theorem terminating_list_never_completes_normally (ss : TList) (h : terminatingL ss = true) :
+    Out.normal ∉ outsL ss :=
+  terminatingL_no_normal ss h
+
+/-- the rule for `for`: no condition, no range clause, no break referring to it -/
+theorem for_terminating_iff (c r : Bool) (body : TList) (label : Option Nat) :
+    terminating (.forS c r body) label = true ↔ c = false ∧ r = false ∧ hasBreakL body label true = false := by
+  simp [terminating, and_assoc]
+
+/-- the rule for `switch`, type switch and `select`: a default case (not needed for `select`),
+no break referring to it, every clause ending in a terminating statement (or `fallthrough`) -/
+theorem switch_terminating_iff (k : SwKind) (d : Bool) (cs : TClauses) (label : Option Nat) :
+    terminating (.sw k d cs) label = true ↔
+      (k = .select ∨ d = true) ∧ hasBreakC cs label true = false ∧ terminatingC k cs = true := by
+  simp [terminating, and_assoc]
+
+/-- the rule for `if`: an `else` branch, both branches terminating -/
+theorem if_terminating_iff (t : TList) (e : TStmt) (label : Option Nat) :
+    terminating (.ifElse t e) label = true ↔ terminatingL t = true ∧ terminating e none = true := by
+  simp [terminating]
+theorem if_without_else_not_terminating (t : TList) (label : Option Nat) :
+    terminating (.ifOnly t) label = false := by
+  simp [terminating]
+
+/-- **a break referring to a switch, type switch, select or for statement makes it
+non-terminating**, wherever the break is: unlabeled in a clause, inside an `if`, or `break L`
+from a nested loop -/
+theorem break_makes_switch_nonterminating (k : SwKind) (d : Bool) (cs : TClauses) (label : Option Nat)
+    (h : hasBreakC cs label true = true) : terminating (.sw k d cs) label = false := by
+  simp [terminating, h]
+theorem break_makes_for_nonterminating (c r : Bool) (body : TList) (label : Option Nat)
+    (h : hasBreakL body label true = true) : terminating (.forS c r body) label = false := by
+  simp [terminating, h]
+
+/-- `L1: switch v.(type) { default: for { break L1 } }` is not terminating (the `break L1` of the
+nested loop refers to the type switch); without the break it is -/
+example : terminating (.labeled 1 (.sw .type true (.cons (.cons (.forS false false
+    (.cons (.brk (some 1)) .nil)) .nil) .nil))) none = false := by decide
+example : terminating (.labeled 1 (.sw .type true (.cons (.cons (.forS false false
+    (.cons .simple .nil)) .nil) .nil))) none = true := by decide
+/-- `switch v.(type) { default: if c { break }; return }`: the unlabeled break inside the `if` refers to the switch -/
+example : terminating (.sw .type true (.cons (.cons (.ifOnly (.cons (.brk none) .nil))
+    (.cons .ret .nil)) .nil)) none = false := by decide
+/-- an unlabeled break inside a nested loop refers to that loop, not to the switch -/
+example : terminating (.sw .expr true (.cons (.cons (.forS true false (.cons (.brk none) .nil))
+    (.cons .ret .nil)) .nil)) none = true := by decide
+
+end Terminating
 
 end ScriggoV.Props.C03
